@@ -52,6 +52,36 @@ def _module_file(dotted):
     return None
 
 
+_MUTATES = {}
+
+
+def _module_mutates(relpath, name):
+    """does the module's own code write into the module-level container `name` (item assignment / deletion, in-place methods,
+    augmented assignment, ``global name`` rebinding)?"""
+    key = (extract.REPO, relpath, name)
+    if key in _MUTATES:
+        return _MUTATES[key]
+    tree, _ = extract.module_ast(relpath)
+    writes = {"append", "extend", "insert", "add", "update", "clear", "pop", "popitem", "setdefault", "remove", "discard", "sort", "reverse", "__setitem__", "__delitem__"}
+    hit = False
+    for node in ast.walk(tree):
+        if isinstance(node, (ast.Assign, ast.AugAssign, ast.AnnAssign, ast.Delete)):
+            targets = node.targets if isinstance(node, (ast.Assign, ast.Delete)) else [node.target]
+            for t in targets:
+                if isinstance(t, ast.Subscript) and isinstance(t.value, ast.Name) and t.value.id == name:
+                    hit = True
+                if isinstance(node, ast.AugAssign) and isinstance(t, ast.Name) and t.id == name:
+                    hit = True
+        elif isinstance(node, ast.Call) and isinstance(node.func, ast.Attribute) and isinstance(node.func.value, ast.Name) and node.func.value.id == name and node.func.attr in writes:
+            hit = True
+        elif isinstance(node, ast.Global) and name in node.names:
+            hit = True
+        if hit:
+            break
+    _MUTATES[key] = hit
+    return hit
+
+
 def _import_source(relpath, name):
     """('name', file, original name) / ('module', file, None) if ``name`` is bound by an import of a repo module"""
     tree, _ = extract.module_ast(relpath)
@@ -328,7 +358,12 @@ class OpsMixin:
             cref = ClassRef.get(relpath, name)
             return (SObj(name, cls=cref, is_class=True),)
         try:
-            return (self.lift_const(extract.module_constant(relpath, name)),)
+            const = extract.module_constant(relpath, name)
+            if isinstance(const, (dict, list, set)) and _module_mutates(relpath, name):
+                # mutable module state (a cache, a registry): its content at the time of the call is whatever earlier calls
+                # left there, NOT the literal it was initialised with -- no model, the contract is undecided
+                raise Unsupported(f"mutable module-level state '{name}' (written by the module's own code)")
+            return (self.lift_const(const),)
         except (extract.ExtractError, extract.NotConstant):
             # ``ALIAS = OTHER_NAME`` where OTHER_NAME is imported: follow the alias
             for st in tree.body:
